@@ -73,10 +73,10 @@ def step (st : Driver.Auth.St) (op : List String) (impl : String) : Driver.Auth.
       ({ st with store := { out.2.1 with faults := [] } }, model ++ "\t" ++ verdict)
     | _, _, _, _ => (st, "bad-op\tna")
   | ["u2f.auth", app, chal, handle, counter, presence, _param] =>
-    match bytesOfHex app, bytesOfHex chal, bytesOfHex handle, counter.toNat?, parseBit presence with
+    match bytesOfHex app, bytesOfHex chal, bytesOfHex handle, counter.toNat?, presence.toNat? with
     | some app, some chal, some handle, some counter, some presence =>
       let s0 := { st.store with calls := 0, faults := [] }
-      let pb : UInt8 := if presence then 0x01 else 0x00
+      let pb : UInt8 := UInt8.ofNat presence
       let out := U2f.authenticate s0 app chal handle counter pb
       let rfield := (fieldOf impl "res").getD ""
       let parts := rfield.splitOn ":"
